@@ -61,6 +61,14 @@ def main():
         pid = p["id"]
         if pid in CHECKS:
             tech, cat, text, ref = CHECKS[pid]
+            try:
+                ev = json.load(open(os.path.join(ROOT, "evidence", f"{pid}.json")))
+                c = ev["coverage"]
+                text += (f" [last recorded quick run: {c['obligations']} unbounded obligations (symbolic integers, loop-free, loop-contract or loop-independence) all discharged; "
+                         f"{c['bounded_obligations']['count']} obligations over bounded collection shapes, labelled bounded and never counted as proved; "
+                         f"{len(c.get('known_findings', []))} known-finding carve-outs]")
+            except Exception:
+                pass
             checks.append({
                 "property_id": pid,
                 "quick_cmd": f"./check {pid} --tier quick",
